@@ -93,9 +93,32 @@ pub fn guarded<T>(f: impl FnOnce() -> T) -> Option<T> {
     std::panic::catch_unwind(std::panic::AssertUnwindSafe(f)).ok()
 }
 
+thread_local! {
+    /// the TLC-generated input line being replayed (attached to MISMATCH lines so that a violation
+    /// can be replayed from its record alone)
+    static CUR_LINE: RefCell<String> = const { RefCell::new(String::new()) };
+}
+
+pub fn set_input_line(s: &str) {
+    CUR_LINE.with(|c| {
+        let mut c = c.borrow_mut();
+        c.clear();
+        c.push_str(s);
+    });
+}
+
 pub fn out_line(tag: &str, v: &serde_json::Value) {
     let out = std::io::stdout();
     let mut out = out.lock();
+    if tag == "MISMATCH" {
+        let line = CUR_LINE.with(|c| c.borrow().clone());
+        if !line.is_empty() {
+            let mut v = v.clone();
+            v["input_line"] = serde_json::Value::String(line);
+            let _ = writeln!(out, "{tag} {v}");
+            return;
+        }
+    }
     let _ = writeln!(out, "{tag} {v}");
 }
 
